@@ -270,7 +270,7 @@ ARENA = {
            'block-contents-changed', 'live-blocks-overlap', 'grow-lost-contents', 'shrink-lost-contents', 'panic'],
         search_x=True,
         mism=['result-block', 'stats'],
-        note='opt-out / non-last / same-address / in-place-grow theorems proved over the model, and the monotonicity clause: no operation other than a reclaim of the newest block, a shrink, a scope exit or a reset lets allocated() go down (ArenaAlloc.growing_step_never_decreases_allocated; reserve, leaving an aligned region and alloc_try_with Err are not in that theorem: they are covered by the stats comparison of the correspondence runs and by C03); the model is tied to the code by correspondence'),
+        note='opt-out / non-last / same-address / in-place-grow theorems proved over the model, and the monotonicity clause: no operation other than a reclaim of the newest block, a shrink, a scope exit or a reset lets allocated() go down (ArenaAlloc.growing_step_never_decreases_allocated; alloc_try_with Err restores the count exactly, see C03); the model is tied to the code by correspondence'),
 }
 
 
